@@ -24,10 +24,15 @@ STATE_MASKS = ("alive", "active")
 
 
 def _ret_arity(fi) -> int:
+    from ..program import single_defs
+
     for n in ast.walk(fi.node):
         if isinstance(n, ast.Return) and n.value is not None:
-            if isinstance(n.value, ast.Tuple):
-                return len(n.value.elts)
+            v = n.value
+            if isinstance(v, ast.Name):
+                v = single_defs(fi.node).get(v.id, v)  # `result = (K, A); return result`
+            if isinstance(v, ast.Tuple):
+                return len(v.elts)
             return 1
     return 0
 
